@@ -3,7 +3,7 @@
 
 # conversion of one unit of X into the family's base (cgs)
 FAMILY = {
-    'mJy': ('fnu', 1e-26), 'Jy': ('fnu', 1e-23),                  # erg / s / cm2 / Hz
+    'mJy': ('fnu', 1e-26), 'Jy': ('fnu', 1e-23), 'MJy': ('fnu', 1e-17),      # erg / s / cm2 / Hz  (MJy = megajansky)
     'erg / (cm2 s)': ('f', 1.0), 'W / m2': ('f', 1e3),            # erg / s / cm2
     'erg / s': ('l', 1.0),                                        # erg / s
 }
